@@ -12,6 +12,10 @@ import (
 	"strings"
 	"sync"
 	"time"
+
+	"go/types"
+
+	"golang.org/x/tools/go/ssa"
 )
 
 // aggregate name of an obligation: stable under edits that keep behaviour
@@ -149,6 +153,8 @@ func runFunctions(w *World, specs *Specs, contracts map[string]*Contract, keys [
 		fn := w.Funcs[key]
 		if strings.HasPrefix(key, "grammar:") {
 			grammarOutcome(w, fo)
+		} else if strings.HasPrefix(key, "globals:") {
+			globalsOutcome(w, fo)
 		} else if strings.HasPrefix(key, "footprint:") {
 			footprintOutcome(w, fo)
 		} else if strings.HasPrefix(key, "table:") {
@@ -201,10 +207,21 @@ type aggStatus struct {
 	Secs              float64
 }
 
+var safetyKinds = []string{"index", "slice-bounds", "nil-deref", "nil-map-write", "nil-iface-call", "nil-func-call", "nil-chan-send",
+	"type-assert", "div-by-zero", "float-to-int", "conv-range", "makeslice-len", "format-string"}
+
 func aggregate(fo *funcOutcome) map[string]*aggStatus {
 	m := map[string]*aggStatus{}
 	if fo.VC.Err != nil {
 		return m
+	}
+	if !strings.Contains(fo.VC.Key, ":") {
+		// every kind of runtime failure has an aggregate for every function, also when the function contains no such
+		// operation today: a change that introduces one (an index expression, a conversion, a non-constant format ...)
+		// that cannot be shown safe then fails a claimed aggregate instead of going unnoticed
+		for _, k := range safetyKinds {
+			m["safety:"+k] = &aggStatus{Solver: map[string]int{}}
+		}
 	}
 	for _, o := range fo.VC.Obls {
 		if o.Kind == "canary" || o.Kind == "kf.canary" {
@@ -319,6 +336,11 @@ func cmdRelock(args []string) {
 					lines = append(lines, fmt.Sprintf("%s %s %s", p, k, n))
 				} else {
 					fmt.Printf("-- not locked: %s %s %s (%d/%d) %v\n", p, k, n, a.Discharged, a.Total, a.FailStatus)
+					if strings.Contains(k, ":") {
+						for _, o := range a.Failed {
+							fmt.Printf("     %s\n", o.Descr)
+						}
+					}
 				}
 			}
 		}
@@ -714,4 +736,151 @@ func footprintOutcome(w *World, fo *funcOutcome) {
 	add("written", writers, fs.Writers)
 	add("read", readers, fs.Readers)
 	fo.VC.Trusted = []string{"footprint of " + fs.Field + ": syntactic scan of go/ssa FieldAddr instructions in every function of the module (reflection/unsafe not considered)"}
+}
+
+type globalsSpec struct {
+	Packages []string          `json:"packages"` // module-relative package paths
+	Allowed  map[string]string `json:"allowed"`  // "<relpkg>.<var>" -> justification
+	Why      string            `json:"why"`
+}
+
+func hasRefs(t types.Type, depth int) bool {
+	if depth > 6 {
+		return true
+	}
+	switch u := types.Unalias(t).Underlying().(type) {
+	case *types.Basic:
+		return u.Kind() == types.UnsafePointer
+	case *types.Struct:
+		for i := 0; i < u.NumFields(); i++ {
+			if hasRefs(u.Field(i).Type(), depth+1) {
+				return true
+			}
+		}
+		return false
+	case *types.Array:
+		return hasRefs(u.Elem(), depth+1)
+	}
+	return true
+}
+
+// globalsOutcome: shared mutable state. Every package-level variable of the listed packages that is used outside
+// package initialisation must be (a) of a reference-free type and never written outside init, or (b) an
+// immutable table (composite literal, only looked up), or (c) listed as allowed with a justification.
+func globalsOutcome(w *World, fo *funcOutcome) {
+	name := strings.TrimPrefix(fo.Key, "globals:")
+	fo.VC = &VCResult{Key: fo.Key}
+	b, err := os.ReadFile(filepath.Join(verifDir(), "spec", "footprints", "globals_"+name+".json"))
+	if err != nil {
+		fo.VC.Err = err
+		return
+	}
+	var gs globalsSpec
+	if err := json.Unmarshal(b, &gs); err != nil {
+		fo.VC.Err = err
+		return
+	}
+	fo.Res = map[int]OblResult{}
+	type use struct {
+		readers, writers map[string]bool
+		gl               *ssa.Global
+	}
+	uses := map[string]*use{}
+	inPkg := func(p *ssa.Package) bool {
+		if p == nil {
+			return false
+		}
+		for _, rp := range gs.Packages {
+			if relPkg(p.Pkg.Path()) == rp {
+				return true
+			}
+		}
+		return false
+	}
+	var scan func(fn *ssa.Function)
+	scan = func(fn *ssa.Function) {
+		if fn.Parent() == nil && (fn.Name() == "init" || strings.HasPrefix(fn.Name(), "init#")) {
+			return
+		}
+		for _, blk := range fn.Blocks {
+			for _, ins := range blk.Instrs {
+				for _, op := range ins.Operands(nil) {
+					gl, ok := (*op).(*ssa.Global)
+					if !ok || !inPkg(gl.Pkg) {
+						continue
+					}
+					k := relPkg(gl.Pkg.Pkg.Path()) + "." + gl.Name()
+					u := uses[k]
+					if u == nil {
+						u = &use{map[string]bool{}, map[string]bool{}, gl}
+						uses[k] = u
+					}
+					if st, isStore := ins.(*ssa.Store); isStore && st.Addr == gl {
+						u.writers[funcKey(fn)] = true
+					} else {
+						u.readers[funcKey(fn)] = true
+					}
+				}
+			}
+		}
+		for _, a := range fn.AnonFuncs {
+			scan(a)
+		}
+	}
+	nfuncs := 0
+	for _, fn := range w.Funcs {
+		if fn.Parent() == nil && fn.Pkg != nil {
+			nfuncs++
+			scan(fn)
+		}
+	}
+	var keys []string
+	for k := range uses {
+		keys = append(keys, k)
+	}
+	sort.Strings(keys)
+	addObl := func(name, descr string, ok bool) {
+		i := len(fo.VC.Obls)
+		fo.VC.Obls = append(fo.VC.Obls, &Obl{Name: name, Kind: "table", Offset: i, Func: fo.Key, Descr: descr})
+		st := "unsat"
+		if !ok {
+			st = "sat"
+		}
+		fo.Res[i] = OblResult{st, "ssa-scan", 0}
+	}
+	var offenders []string
+	for _, k := range keys {
+		u := uses[k]
+		if _, ok := gs.Allowed[k]; ok {
+			continue
+		}
+		elem := ptrElem(u.gl.Type())
+		switch {
+		case len(u.writers) > 0:
+			offenders = append(offenders, fmt.Sprintf("%s is written outside package initialisation by %v", k, sortedSet(u.writers)))
+		case hasRefs(elem, 0) && !w.immutableTable(u.gl):
+			offenders = append(offenders, fmt.Sprintf("%s (type %s) can reach mutable shared state and is used by %v", k, elem, sortedSet(u.readers)))
+		}
+	}
+	addObl("no-shared-mutable-state", fmt.Sprintf("package-level variables of %v used outside initialisation are reference-free and never written, or immutable tables, or allowed: %v (%s)", gs.Packages, offenders, gs.Why), len(offenders) == 0)
+	// allowed entries must exist (a stale allow-list would hide nothing but is reported)
+	var stale []string
+	for k := range gs.Allowed {
+		if uses[k] == nil {
+			stale = append(stale, k)
+		}
+	}
+	sort.Strings(stale)
+	addObl("allow-list-current", fmt.Sprintf("every allowed variable is still used: stale %v", stale), len(stale) == 0)
+	addObl("scan-not-empty", fmt.Sprintf("%d functions scanned", nfuncs), nfuncs > 0)
+	fo.VC.Trusted = []string{"shared state of " + strings.Join(gs.Packages, ", ") + ": syntactic scan of go/ssa Global operands in every function of the module (reflection/unsafe/cgo not considered); allowed: " + fmt.Sprint(gs.Allowed)}
+}
+
+func sortedSet(m map[string]bool) []string {
+	var out []string
+	for k := range m {
+		out = append(out, k)
+	}
+	sort.Strings(out)
+	return out
 }
